@@ -306,7 +306,10 @@ def run(ctx):
             "spaces, Latin-1 / Cyrillic letters, e-mails, websites, duplicates) in utf-8 / latin-1 / cp1251, coverage 0.3 / 0.6 / 1, n-gram 2-4; "
             "real trainer.py subprocess, real guesser with skip_brute run to exhaustion, whole language enumerated; every supported training "
             "password must be in it and the probabilities must sum to 1 (1e-9); non-trivial = password with >= 2 segments, capitals or "
-            "non-ASCII; distinct by (password, encoding)")
+            "non-ASCII; distinct by (password, encoding).  Lists with <= 14 distinct passwords and <= 1500 guesses, plus three fixed lists "
+            "at the edges of the trainer's comparisons, are also run through the pipeline MODEL inside coqc (binary64, repr/float() "
+            "tables of the interpreter): loaded grammar, base structures and the multiset of guesses must coincide with the real "
+            "trainer -> guesser, and the float sanity check f64_arith_ok of C03_reproduced must hold")
     return {"evaluations": dist["passwords"], "distinct_nontrivial": nontrivial, "rule": rule, "samples": samples,
             "corr": corr, "violations": vio, "dist": dist}
 
